@@ -1023,7 +1023,13 @@ impl Element {
                                     var_key,
                                     var_target,
                                     var_target,
-                                    gen_lit_str(value)
+                                    // (without a `data` attribute the template gets an empty object:
+                                    // a string would answer `length` and the String members)
+                                    if value.is_empty() {
+                                        "{}".to_string()
+                                    } else {
+                                        gen_lit_str(value)
+                                    }
                                 )?;
                                 Ok(())
                             }),
